@@ -42,9 +42,9 @@ CHECKS = {
                      'run on random delimiter sets',
     },
     'C15': {
-        'text': 'Proof. For ALL strings: the header functions end in Ok / ParserError / InvalidEncodingChars (C15_header_total ...); for every text, every shipped version, both levels, every delimiter set: parse_segment is Ok or an HL7 exception - never IndexError/KeyError/TypeError/AttributeError, ValueError only under STRICT from the leaf (C15_parse_segment_no_crash, _any_leaf, _full_leaf with the C13 datatype layer), every parsed segment encodes (C15_enc_segment_total), parse_field/parse_component likewise, and parse_message on the flat path (C15_parse_message_flat_no_crash); Python partial operations are explicit Crash outcomes in the model and are shown unreachable from an invariant over well-formed tables (kernel-checked for the 12 versions). The grouped path, Message.to_er7 and validate() are decided by the oracle on byte-level mutants of valid messages of every version and junk.',
+        'text': 'Proof. For ALL strings: the header functions end in Ok / ParserError / InvalidEncodingChars (C15_header_total ...); for every text, every shipped version, both levels, every delimiter set: parse_segment is Ok or an HL7 exception - never IndexError/KeyError/TypeError/AttributeError, ValueError only under STRICT from the leaf (C15_parse_segment_no_crash, _any_leaf, _full_leaf with the C13 datatype layer), every parsed segment encodes (C15_enc_segment_total), parse_field/parse_component likewise, parse_message with group finding off and on (C15_parse_message_no_crash), every parsed message encodes and its message-level validation returns a report (C15_enc_message_total, C15_validate_message_total, C15_parsed_message_encodes_and_validates); Python partial operations are explicit Crash outcomes in the model and are shown unreachable from invariants over well-formed tables (kernel-checked for the 12 versions). The real parse_message / to_er7 / validate are exercised by the oracle on byte-level mutants of valid messages of every version, instances of every structure that holds a choice group, numeric special values and junk.',
         'design_ref': 'DESIGN.md section 0.6 and section 7 C15',
-        'note': 'Trusted: Coq kernel + vm_compute; translators; harness c15.py/headercorr.py. No axioms. ASCII domain. Not proved: grouped parse_message, enc_message totality, validator totality (oracle only).',
+        'note': 'Trusted: Coq kernel + vm_compute; translators; harness c15.py/headercorr.py. No axioms. ASCII domain. The message-level theorems are about the model of parse_message/validate (Model/Message.v, Validate.v), tied to the code by the C08/C04 correspondences and the header correspondence here.',
         'technique': 'Coq unreachability proof of crash outcomes in the parser/encoder model + outcome-class differential + crash oracle on mutants',
     },
     'C16': {
@@ -80,30 +80,30 @@ CHECKS = {
                 'explicitly and consults it exactly where the code calls get_default_*; with explicit version, level and '
                 'delimiters the result is independent of the configuration (C17_*_independent), an omitted argument does '
                 'read it (C17_omitted_argument_reads_default), and set_default_* is a function on configurations that '
-                'cannot touch existing elements. That the CODE forwards explicit arguments at every call site is checked '
+                'cannot touch existing elements. Derived-from-text clause: for every text whose header states a version, parse_message (tree, encoding, validation report) is the same under any two default configurations (C17_parse_message_independent, _any_stated_version), the defaults are read only where the header is silent (C17_parse_message_version_source, witnesses _default_version_used/_default_level_used), the parsed message and all descendants encode with the delimiters found in the text (C17_message_elements_encode_with_own_delimiters), datatype_factory uses the default level exactly when none is given (C17_datatype_factory). That the CODE forwards explicit arguments at every call site is checked '
                 'by running a corpus of explicit calls under 30 (thorough: 72) default configurations and by comparing '
                 'the configuration-free model with hl7apy running under hostile defaults.',
         'design_ref': 'DESIGN.md section 7 C17',
-        'note': 'Trusted: Coq kernel + vm_compute; translators; harness c17.py. No axioms. The independence theorems are '
-                'true by construction of the model; the tie to the code is the differential under non-default '
+        'note': 'Trusted: Coq kernel + vm_compute; translators; harness c17.py. No axioms. The segment-level independence theorems are '
+                'true by construction of the model, the message-level ones are not; the tie to the code is the differential under non-default '
                 'configurations. A parentless element encoded or assigned text WITHOUT explicit delimiters reads the '
                 'current default by design (documented, not flagged).',
         'technique': 'Coq model with explicit configuration + independence theorems + differential under many default '
                      'configurations',
     },
     'C18': {
-        'text': 'Partial proof. For every reference (standard entry or profile), text, delimiter set and level: the '
+        'text': 'Proof with one refuted clause. For every reference (standard entry or profile), text, delimiter set and level: the '
                 'Segment structure is the given reference\'s (C18_segment_structure_from_reference), every Field the '
                 'parser creates receives the sub-reference of its parent\'s reference and takes datatype and structure '
                 'from it (C18_fields_take_parent_subreference, C18_field_structure_from_reference), restating the '
                 'standard entry is a no-op (C18_restating_noop). Profiles synthesised from every version\'s segments '
                 '(1-3 constraint edits) run through hl7apy and, as inline references, through the Coq model (trees '
                 'compared); the oracle checks datatype read-back, profile-driven validate() verdicts, restating, '
-                'MessageProfileNotFound/LegacyMessageProfile and message-level one-edit profiles.',
+                'MessageProfileNotFound/LegacyMessageProfile and message-level one-edit profiles. Message level (Model/MessageProf.v): no profile = the unprofiled parse (C18_message_no_profile), a profile lacking the structure - the empty one included - gives MessageProfileNotFound, a legacy entry LegacyMessageProfile (parse and constructor), a restating profile is a no-op, the message carries the profile reference, every group/segment of a grouped parse takes the sub-reference its parent declares (C18_grouped_nodes_take_profile_subreference under the decidable profile_groups_ok), validate() reads the profile only through the carried reference (C18_validate_judges_against_profile); with find_groups=False the clause is refuted (F43, C18_flat_nodes_take_profile_subreference_refuted). 1200 message-level cases per quick run go through the model.',
         'design_ref': 'DESIGN.md section 7 C18',
         'note': 'Trusted: Coq kernel + vm_compute; translators; harness c18.py/segcorr.py. No axioms. Creation through '
                 'traversal/add_* helpers and the validator\'s use of the profile are covered by the oracle here and by '
-                'the heap / validator models elsewhere; the message level is oracle-only.',
+                'the heap / validator models elsewhere.',
         'technique': 'Coq proof that the parser model threads the given reference + differential on synthesised profiles',
     },
     'C05': {
@@ -113,13 +113,13 @@ CHECKS = {
         'technique': 'Coq simulation proof STRICT => TOLERANT over the parser model + both-levels differential + STRICT refusal oracle',
     },
     'C13': {
-        'text': 'Partial proof (36 theorems). An implementation-shaped Gallina model of the DT/TM/DTM/NM/SI factories '
+        'text': 'Partial proof (45 theorems). An implementation-shaped Gallina model of the DT/TM/DTM/NM/SI factories '
                 '(length-based format choice, offset regex + str.replace, CPython strptime alternatives incl. the '
                 'space-padded day, Decimal/int fragments, max length, STRICT raise vs TOLERANT fallback) and independent '
                 'specification recognisers from the HL7 grammar. For DT, TM and DTM the acceptance set is characterised '
                 'EXACTLY for all strings (accepts = spec || explicitly defined defect family: C13_accept_*_partial), the '
                 'full statements are refuted with computed witnesses (F10), round trips are proved (C13_roundtrip_*), '
-                'TOLERANT totality and verbatim fallback (C13_tolerant_total/_verbatim), max length (C13_maxlength); '
+                'TOLERANT totality and verbatim fallback (C13_tolerant_total/_verbatim), max length (C13_maxlength), numerics encode to the same number (C13_NM_reparse_exact: printing then re-parsing an accepted NM gives the same decimal record; C13_NM_same_number, C13_SI_same_number); '
                 'offset grid, formats and length limits are regenerated from /repo each run. 1.25M factory evaluations '
                 '(exhaustive strings to length 5, time/offset/calendar grids) are judged by the oracle and sampled '
                 'against the Coq model.',
@@ -186,7 +186,7 @@ CHECKS = {
                 'remove/replace_child/create_element/_can_add_child with re-entrancy, parent/traversal_parent setters, class-'
                 'specific add, effects before a raise persist) and an abstract "ordered list of repetitions per child name" '
                 'specification (Model/HeapSpec.v). C09_refines: add / remove / replace refine the list edits, lifted to all '
-                'histories by induction; C09_order_stable; C09_encoding (encoding is a function of the abstraction); F19/F20 '
+                'histories by induction; C09_refines_indexed (set / remove by index, negative indexes included, refine replace-in-place / remove of repetition len+k); C09_order_stable; C09_encoding (encoding is a function of the abstraction); F19/F20 '
                 'refuted with computed witnesses. Model and hl7apy replay the same operation histories; the full state dump '
                 'of every live handle is compared after EVERY step inside Coq; the oracle compares the encoding with the '
                 'plain list model after every step.',
@@ -218,10 +218,10 @@ CHECKS = {
                 'path incl. .value, len, iteration, to_er7 with both trailing_children settings) leaves the children and '
                 'encodings of every pre-existing element unchanged, whatever its outcome, however often repeated '
                 '(C11_read_pure, C11_navigation_pure, C11_read_repeatable, C11_observers_pure). The "first write materialises '
-                'exactly the chain" sentence has a computed instance and is decided by the oracle (before/after dumps around '
+                'exactly the chain" sentence is proved for text right-hand sides under Inv and the decidable Tidy (C11_write_materialises for the .value form, C11_assign_materialises by name, C11_write_none_materialises, C11_write_chain_abs; C11_write_materialises_untidy_refuted shows the side condition is needed) and decided by the oracle in general (before/after dumps around '
                 'read chains of depth 1-4, exact materialisation count, written chain must be listed).',
         'design_ref': 'DESIGN.md section 7 C11',
-        'note': 'Trusted as C09. No axioms. No general theorem for the materialisation clause; validate() as an observer is '
+        'note': 'Trusted as C09. No axioms. MSH-1/MSH-2, Segment.value and non-text right-hand sides of the materialisation clause are oracle-only; validate() as an observer is '
                 'covered by the C04 purity oracle.',
         'technique': 'Coq purity proof of the read path of the heap model + before/after differential on live objects',
     },
